@@ -5,8 +5,9 @@ import (
 )
 
 // C01 O1/O2: exact-input price.  bought = GetInputPrice(sold, Rin, Rout, fee)
-//   O1: (Rin*1e18 + n*sold) * (Rout - bought) >= Rin*Rout*1e18        (n = 1e18 - fee*1e18)
-//   O2: bought+1 breaks O1 (maximality)
+//
+//	O1: (Rin*1e18 + n*sold) * (Rout - bought) >= Rin*Rout*1e18        (n = 1e18 - fee*1e18)
+//	O2: bought+1 breaks O1 (maximality)
 func VerifC01_InputPrice() {
 	verifExpect("priced")
 	two128 := verifPow2(128)
